@@ -187,3 +187,94 @@ def gen_views_case(rng, assign=False):
                 ops.append({"t": "set_phase", "v": v, "value": int(rng.integers(0, 2))})
         c["ops"] = ops
     return c
+
+
+# ---- the constructor takes VALUES: two maps built from the same caller arrays are independent of each other and of the
+# caller's arrays (phase ids, coordinates, properties); found missing by seeded change C12-9 ---------------------------------
+def input_isolation_check(ctx, c, outs):
+    from orix.crystal_map import CrystalMap
+    from orix.quaternion import Rotation
+    n = len(c["phase_id"])
+    dt = {"int64": np.int64, "int32": np.int32, "float": float}[c["dtype"]]
+    pid = np.array(c["phase_id"], dtype=dt)
+    if c.get("strided"):
+        big = np.zeros(2 * n, dtype=dt)
+        big[::2] = pid
+        pid_in = big[::2]
+    else:
+        pid_in = pid
+    x = np.arange(n, dtype=float) * 0.5
+    iq = np.arange(n, dtype=float) + 10
+    pid0 = np.array(pid_in, copy=True)
+    with warnings.catch_warnings():
+        warnings.simplefilter("ignore")
+        A = CrystalMap(Rotation.identity((n,)), phase_id=pid_in, x=x, prop={"iq": iq})
+        B = CrystalMap(Rotation.identity((n,)), phase_id=pid_in, x=x, prop={"iq": iq})
+        b_pid = np.array(B.phase_id, copy=True)
+        for op in c["ops"]:
+            view = A if op["sel"] is None else A[np.asarray(op["sel"], bool)]
+            if op["t"] == "pid":
+                view.phase_id = op["value"]
+            elif op["t"] == "prop":
+                view.iq = op["value"]
+        # only the phase ids are demanded to be the map's own (C12 is about phase bookkeeping; orix keeps the caller's
+        # property arrays by reference, which no clause of the property forbids)
+        msgs = []
+        if not np.array_equal(pid_in, pid0):
+            msgs.append(f"the caller's phase-id array changed: {pid0.tolist()} -> {np.asarray(pid_in).tolist()}")
+        if not np.array_equal(B.phase_id, b_pid):
+            msgs.append(f"a second map built from the same phase-id array changed: phase ids {b_pid.tolist()} -> {np.asarray(B.phase_id).tolist()}")
+        ids_b = set(int(i) for i in np.unique(B.phase_id))
+        if not ids_b <= set(B.phases.ids):
+            msgs.append(f"the second map holds phase ids {sorted(ids_b)} but its phase list has {list(B.phases.ids)}")
+        if sorted(B.phases_in_data.ids) != sorted(ids_b):
+            msgs.append(f"phases_in_data of the second map lists {list(B.phases_in_data.ids)} but its data hold {sorted(ids_b)}")
+    if msgs:
+        return (f"CrystalMap built from {c['dtype']}{' strided' if c.get('strided') else ''} phase ids, operations {c['ops']}: "
+                + "; ".join(msgs))
+    return None
+
+
+def gen_input_isolation(rng):
+    n = int(rng.integers(4, 9))
+    pid = [int(x) for x in rng.integers(0, 2, n)]
+    pid[0], pid[1] = 0, 1
+    ops = []
+    for _ in range(int(rng.integers(1, 4))):
+        sel = None if rng.random() < 0.4 else [bool(x) for x in (rng.random(n) < 0.5)]
+        if sel is not None and not any(sel):
+            sel[0] = True
+        t = ["pid", "pid", "prop"][int(rng.integers(3))]
+        ops.append({"t": t, "sel": sel, "value": int(rng.choice([-1, 0, 1])) if t == "pid" else float(rng.integers(-5, 6))})
+    return {"phase_id": pid, "dtype": ["int64", "int64", "int32", "float"][int(rng.integers(4))], "strided": bool(rng.integers(2)), "ops": ops}
+
+
+# ---- selection by a phase name that several phases carry (a map built from phase ids only names every phase '';
+# phases renamed after construction): all points of every phase of that name ------------------------------------------------
+def same_name_check(ctx, c, outs):
+    from orix.crystal_map import CrystalMap
+    from orix.quaternion import Rotation
+    pid = np.array(c["phase_id"], dtype=int)
+    n = len(pid)
+    with warnings.catch_warnings():
+        warnings.simplefilter("ignore")
+        xm = CrystalMap(Rotation.identity((n,)), phase_id=pid, x=np.arange(n, dtype=float))
+        names = {}
+        for i, p in xm.phases:
+            if i == -1:
+                continue
+            if c["rename"] is not None:
+                p.name = c["rename"][i % len(c["rename"])]
+            names[i] = p.name
+        for name in sorted(set(names.values())):
+            want = np.flatnonzero(np.isin(pid, [i for i, nm in names.items() if nm == name]))
+            keys = [name] if not c["tuple"] else [(name, name)]
+            for key in keys:
+                try:
+                    got = np.asarray(xm[key].id)
+                except Exception as e:
+                    return f"selecting by the phase name {name!r} (phases {names}) raises {type(e).__name__}: {e}"
+                if sorted(got.tolist()) != want.tolist():
+                    return (f"xmap[{key!r}] selects points {sorted(got.tolist())} but the phases named {name!r} ({names}) hold "
+                            f"points {want.tolist()} (phase ids {pid.tolist()})")
+    return None
